@@ -108,6 +108,7 @@ pub fn gen_result(r: &mut Rng, text: &str) -> ResultSpec {
     ResultSpec {
         rc,
         rc_wide: None,
+        rc_octets: None,
         matched: if r.chance(1, 4) { format!("dc=m,{text}") } else { String::new() },
         text: text.to_string(),
         refs: if r.chance(1, 5) { Some((0..r.usize(4)).map(|i| format!("ldap://h{i}/{text}")).collect()) } else { None },
@@ -704,6 +705,37 @@ pub fn gen_stream(seed: u64) -> Scenario {
                     if r.chance(1, 2) {
                         cs.steps.push(Step::Finish { slot });
                         cs.steps.push(Step::State { slot });
+                    }
+                }
+            }
+        }
+        // Hang-up shape (one untimed single-client run in six): the last stream is opened, the server sends everything
+        // it has for it and - 497 ms of silence later - closes the connection; only then does the caller read. What
+        // was delivered is still the stream's content: every item, the end, and the server's own final result.
+        if nclients == 1 && !timed_run && r.chance(1, 6) {
+            let last_open = cs.steps.iter().rposition(|s| matches!(s, Step::Open { .. }));
+            if let Some(ix) = last_open {
+                if let Step::Open { token, slot, adapter, .. } = cs.steps[ix].clone() {
+                    let complete = matches!(sc.plan.by_token.get(&token), Some(ReplyPlan::Items { done: Some(_), .. }));
+                    let n_items = match sc.plan.by_token.get(&token) {
+                        Some(ReplyPlan::Items { items, .. }) => items.len(),
+                        _ => 0,
+                    };
+                    if complete && matches!(adapter, Adapter::Direct | Adapter::EntriesOnly) {
+                        // (this stream alone, over a network without delay: the server's idle timer runs from its last
+                        // emission, not from the delivery - false alarm 21)
+                        cs.steps.truncate(ix + 1);
+                        cs.steps.drain(..ix);
+                        sc.knobs.net_delay_max_ms = 0;
+                        sc.plan.close_after_idle_ms = Some(497);
+                        cs.steps.push(Step::Sleep { ms: 600 });
+                        for _ in 0..=n_items {
+                            cs.steps.push(Step::Next { slot, cancel_after_polls: None });
+                        }
+                        cs.steps.push(Step::State { slot });
+                        cs.steps.push(Step::Finish { slot });
+                        cs.steps.push(Step::State { slot });
+                        sc.note = "hangup-before-read".into();
                     }
                 }
             }
@@ -1402,7 +1434,9 @@ pub fn gen_frame_base(seed: u64) -> Scenario {
                         items.insert(0, ItemPlan { gap_ms: 0, op: RespOp::Entry { dn: format!("cn={tok}:big"), attrs: vec![("blob".into(), vec![r.bytes(size)])] }, ctrls: None });
                     }
                     if many && c == many_client {
-                        let n = 60 + r.usize(141);
+                        // one such run in three: more than a thousand (beyond any plausible fixed queue bound
+                        // between the driver and the stream: the consumer does not run during the burst)
+                        let n = if r.chance(1, 3) { 1100 + r.usize(1500) } else { 60 + r.usize(141) };
                         for i in 0..n {
                             items.push(ItemPlan { gap_ms: 0, op: RespOp::Entry { dn: format!("cn={i:04},{tok}"), attrs: vec![] }, ctrls: None });
                         }
@@ -1579,11 +1613,23 @@ pub fn gen_rich_result(r: &mut Rng, op: &OpSpec) -> (ResultSpec, Option<Vec<Ctl>
     };
     // now and then a code that does not fit 32 bits at all: whatever number the caller then sees, it must not
     // read as success
-    let rc_wide = if r.chance(1, 40) { Some(*r.pick(&[1u64 << 32, (1u64 << 32) + 10, (1u64 << 32) + 5, (1u64 << 32) + 6, 1u64 << 40, (1u64 << 63) - 1, 0x1_0000_0031])) } else { None };
+    // (codes of nine and more octets included: a decoder that shifts octets into a 64-bit word loses the top ones)
+    let (rc_wide, rc_octets) = if r.chance(1, 40) {
+        match r.below(11) {
+            k @ 0..=6 => (Some([1u64 << 32, (1u64 << 32) + 10, (1u64 << 32) + 5, (1u64 << 32) + 6, 1u64 << 40, (1u64 << 63) - 1, 0x1_0000_0031][k as usize]), None),
+            7 => (None, Some(vec![1, 0, 0, 0, 0, 0, 0, 0, 0])),
+            8 => (None, Some(vec![1, 0, 0, 0, 0, 0, 0, 0, 0, 0, 0, 0])),
+            9 => (None, Some(vec![1, 0, 0, 0, 0, 0, 0, 0, 10])),
+            _ => (None, Some(vec![0, 0x80, 0, 0, 0, 0, 0, 0, 0, 6])),
+        }
+    } else {
+        (None, None)
+    };
     let text = |r: &mut Rng| if r.chance(1, 50) { gen_string(r, 20_000) } else if r.chance(1, 3) { String::new() } else { gen_string(r, 30) };
     let mut res = ResultSpec {
         rc,
         rc_wide,
+        rc_octets,
         matched: text(r),
         text: text(r),
         refs: if r.chance(1, 3) { Some((0..r.usize(5)).map(|i| format!("ldap://h{i}/{}", gen_string(r, 8))).collect()) } else { None },
@@ -2366,12 +2412,13 @@ pub fn gen_estab_url(seed: u64) -> Scenario {
                 _ => {
                     // a TLS-capable server in good order: ldaps must open with TLS whatever the StartTLS flag says
                     // (a custom connector is used as it is: no_tls_verify only acts on the default one)
+                    // (the process's system store is the harness CA: the default connector verifies against it)
                     if c.host == HostForm::Name {
-                        c.trust_ca = true;
+                        c.trust_ca = r.chance(1, 2);
                     } else {
                         c.no_tls_verify = true;
                     }
-                    Peer::Tls { starttls: StartTlsResp::Success, tls: TlsBehaviour::Good }
+                    Peer::Tls { starttls: StartTlsResp::Success, tls: TlsBehaviour::Good, rogue: false }
                 }
             }
         } else {
@@ -2395,7 +2442,15 @@ pub fn gen_estab_url(seed: u64) -> Scenario {
         c.peer = if r.chance(1, 5) { Peer::Absent } else { Peer::Accept };
         c.starttls = r.chance(1, 10);
     }
-    c.sync_api = c.conn_timeout_ms.is_none() && r.chance(1, 3);
+    // the synchronous API runs on a runtime of its own with the real clock: a stalling peer is only combined with
+    // the shortest timeout there (50 ms of real time per such case)
+    c.sync_api = r.chance(1, 3) && (c.peer != Peer::Stall || c.conn_timeout_ms == Some(50));
+    if c.sync_api && c.conn_timeout_ms.is_none() && (c.scheme == "ldap" || c.scheme == "ldaps") && r.chance(1, 3) {
+        // a timeout that has no reason to expire: the outcome is that of the same case without one. (Only with the
+        // real clock: under the paused clock of the asynchronous cases an armed timer fires as soon as the
+        // runtime idles, i.e. while the peer thread is still working.)
+        c.conn_timeout_ms = Some(*r.pick(&[30_000, 600_000]));
+    }
     c.clone_settings = c.std_stream == StdKind::None && r.chance(1, 6);
     estab_scenario("ESTABURL", &c)
 }
@@ -2419,7 +2474,13 @@ pub fn gen_estab_tls(seed: u64) -> Scenario {
             0..=39 => StartTlsResp::Success,
             // any non-zero code, with the codes some helper of the library treats as "not an error" well represented
             40..=56 => StartTlsResp::Code(*r.pick(&[10, 10, 10, 5, 6, 14, 1, 2, 8, 13, 49, 52, 53, 80, 118, 4096, 2147483648, 4294967295])),
-            57..=59 => StartTlsResp::CodeWide(*r.pick(&[1u64 << 32, (1u64 << 32) + 10, 1u64 << 40])),
+            57..=59 => match r.below(6) {
+                k @ 0..=2 => StartTlsResp::CodeWide([1u64 << 32, (1u64 << 32) + 10, 1u64 << 40][k as usize]),
+                // nine and more octets: 2^64, 2^88, 2^64 + 10
+                3 => StartTlsResp::CodeOctets(vec![1, 0, 0, 0, 0, 0, 0, 0, 0]),
+                4 => StartTlsResp::CodeOctets(vec![1, 0, 0, 0, 0, 0, 0, 0, 0, 0, 0, 0]),
+                _ => StartTlsResp::CodeOctets(vec![1, 0, 0, 0, 0, 0, 0, 0, 10]),
+            },
             60..=63 => StartTlsResp::Garbage,
             64..=65 => StartTlsResp::NoticeThenClose,
             66..=67 => StartTlsResp::NoticeThenSuccess,
@@ -2439,7 +2500,10 @@ pub fn gen_estab_tls(seed: u64) -> Scenario {
     if st == StartTlsResp::Silent || (tls == TlsBehaviour::Silent && matches!(st, StartTlsResp::Success | StartTlsResp::SuccessPlusInjected | StartTlsResp::NoticeThenSuccess)) {
         c.conn_timeout_ms = Some(*r.pick(&[50, 1000, 30_000]));
     }
-    c.peer = Peer::Tls { starttls: st.clone(), tls };
+    // the certificate: issued by the harness CA (which the custom connector and the process's system store trust)
+    // or by a CA nobody trusts
+    let rogue = r.chance(1, 5);
+    c.peer = Peer::Tls { starttls: st.clone(), tls, rogue };
     c.std_stream = if c.host != HostForm::Ip6 && r.chance(1, 7) { StdKind::Tcp } else { StdKind::None };
     if c.conn_timeout_ms.is_none() && r.chance(1, 12) {
         // a pre-opened Unix stream cannot carry the TLS the URL asks for: establishment must fail
